@@ -32,6 +32,7 @@ FAMILIES = {
     'F14-patches': (('patches',), dict(max_files=2)),
     'F12b-attrs': (('routes', 'attrs'), dict(max_routes=2)),
     'F12c-attrs-required': (('routes', 'attrs'), dict(max_routes=2, schema=1)),
+    'F12d-attrs-mixed-order': (('routes', 'attrs'), dict(max_routes=2, schema=2)),
 }
 
 IMPLEMENTED = None   # set by machine: families whose actions exist
